@@ -284,14 +284,14 @@ def run_shard(shard, tier, seed, rec):
         from metador_core.plugins import schemas
 
         cls = schemas.get(shard["schema"], tuple(shard["version"]))
-        n = {"quick": 60, "thorough": 2500}[tier]
+        n = {"quick": 150, "thorough": 2500}[tier]
         strat = st.builds(
             lambda r, a: dict(kind="installed", schema=shard["schema"], version=shard["version"], recipe=r, access=a),
             G.model_recipe(cls, 0, dates=True), st.sampled_from(["versioned", "versioned", "unversioned", "getitem"]))
         hyp.search(strat, lambda c: run_case(c, rec), rec, seed=seed * 100 + hash(shard["schema"]) % 97, max_examples=n,
                    suppress_filter=True)
     else:
-        n = {"quick": 250, "thorough": 12000}[tier]
+        n = {"quick": 600, "thorough": 12000}[tier]
         hyp.search(generated_cases(dates=False), lambda c: run_case(c, rec), rec, seed=seed * 100 + shard["i"],
                    max_examples=n, suppress_filter=True)
 
